@@ -439,6 +439,8 @@ def u_c10d():
     u.add(A, 5, 24, [["k", "1"], ["e", ("ev", 1)]], clen=0)                  # 8 k tag first, then B's note
     # a NIP-26 delegation tag naming B as the delegator (the store cannot check the token): A's request stays A's request
     u.add(A, 5, 25, [["delegation", ("pk", B), "kind=5", "00" * 64], ["e", ("ev", 1)]], clen=0)   # 9
+    u.add(A, 5, 5, [["e", ("ev", 1)]], clen=0)                                # 10 a request dated BEFORE the foreign note it names
+    u.add(A, 5, 6, [["a", ("addr", 30000, B, "art")]], clen=0)                # 11 ... and before the foreign address's event
     return u.finish()
 
 
